@@ -31,7 +31,7 @@ from operon_ai.state.metabolism import ATP_Store
 ID = "C07"
 LEVEL = "fault_enumeration"
 ENGINE = "seq"
-RUNS = {"quick": 60_000, "thorough": 3_000_000}
+RUNS = {"quick": 60_000, "thorough": 2_500_000}
 LOGICS = ["AND", "OR", "MAJORITY", "UNANIMOUS", "EXECUTOR_PRIORITY", "ASSESSOR_PRIORITY"]
 BEHAVIOURS = ["EXECUTE", "PERMIT", "BLOCK", "FAILURE", "DEFER", "UNKNOWN", "raise:RuntimeError"]
 TABLE = len(LOGICS) * len(BEHAVIOURS) * len(BEHAVIOURS) * 2          # 588 = 294 cells x cache on/off
